@@ -75,6 +75,11 @@ def prepare_corpus(pid=None, tier=None):
             with open(os.path.join(out, "m_literal_matrix_%02d.sol" % part), "w") as f:
                 f.write(randsol.literal_matrix(["0.8.17", "0.7.6", "^0.8.4"][part % 3], part))
         n += randsol.MATRIX_PARTS
+        # every form of string literal in every place a detector reads one, on both sides of the version gates
+        for ver in ("0.8.3", "^0.8.4", "0.7.6", "0.4.24"):
+            with open(os.path.join(out, "s_string_matrix_%s.sol" % ver.replace("^", "c").replace(".", "_")), "wb") as f:
+                f.write(randsol.string_matrix(ver).encode("utf-8"))
+            n += 1
     for name in sorted(os.listdir(os.path.join(ROOT, "corpus"))):
         if name.endswith(".sol"):
             shutil.copy(os.path.join(ROOT, "corpus", name), os.path.join(out, "h_" + name))
@@ -651,18 +656,24 @@ def _report_check(chk, tier, pid):
                      "OnlyVuln": "pragma solidity ^0.8.17;\ncontract OnlyVuln { }\n",
                      "OnlyQa": "pragma solidity 0.8.17;\ncontract OnlyQa { function f() private pure {} }\n"}
             qruns = []
+            has_of = {}
             for qi, (qn, text) in enumerate(sorted(quiet.items())):
                 iso = os.path.join(scratch2, "iso_%s.sol" % qn)
                 with open(iso, "w") as f:
                     f.write(text)
                 rr = vlib.harness(hb, ["analyze", iso])["extra"]["results"]
                 has = {c: any(isinstance(rr.get(pn), list) and rr.get(pn) for pn in cat[c]) for c in bindrive.CATS}
-                for shape in ("flat", "nested"):
+                for shape in ("flat", "nested", "script"):
                     troot = os.path.join(scratch2, "q%d%s" % (qi, shape))
-                    where = troot if shape == "flat" else os.path.join(troot, "sub", "inner")
+                    where = troot if shape == "flat" else os.path.join(troot, "script") if shape == "script" else os.path.join(troot, "sub", "inner")
                     os.makedirs(where)
-                    with open(os.path.join(where, qn + ".sol"), "w") as f:
+                    # (a forge script X.s.sol is a Solidity source like any other)
+                    with open(os.path.join(where, qn + (".s.sol" if shape == "script" else ".sol")), "w") as f:
                         f.write(text)
+                    if shape == "script":
+                        os.makedirs(os.path.join(troot, "src"))
+                        with open(os.path.join(troot, "src", "Quiet.sol"), "w") as f:
+                            f.write(quiet["Quiet"])
                     if shape == "nested":
                         os.makedirs(os.path.join(troot, "empty"))
                         os.makedirs(os.path.join(troot, "deep", "empty2"))
@@ -676,6 +687,15 @@ def _report_check(chk, tier, pid):
                             shape, qn, code, "missing" if not os.path.exists(rp) else "present"), {"content": text, "shape": shape, "stderr": err[-200:]})
                         continue
                     shutil.copy(rp, os.path.join(reports, tag + ".md"))
+                    if shape == "script":
+                        # the tree also holds src/Quiet.sol: its (few, if any) findings count as well
+                        if "Quiet" not in has_of:
+                            qiso = os.path.join(scratch2, "iso_Quiet_again.sol")
+                            with open(qiso, "w") as f:
+                                f.write(quiet["Quiet"])
+                            qr = vlib.harness(hb, ["analyze", qiso])["extra"]["results"]
+                            has_of["Quiet"] = {c: any(isinstance(qr.get(pn), list) and qr.get(pn) for pn in cat[c]) for c in bindrive.CATS}
+                        has = {c: has[c] or has_of["Quiet"][c] for c in bindrive.CATS}
                     qruns.append((tag, qn, shape, has))
             parsed = bindrive.parse_reports(hb, reports)
             for (tag, qn, shape, has) in qruns:
@@ -820,6 +840,12 @@ def _pipeline(chk, tier, pid, beh):
 
     def dr(t, es):
         return {"kind": "dir", "name": nm(t), "tree": {"entries": es}}
+
+    def deep_chain(n):
+        node = dr("d%d" % n, [fl("Bottom.sol", "c2")])
+        for level in range(n - 1, 0, -1):
+            node = dr("d%d" % level, [node] + ([fl("Mid%d.sol" % level, "c5")] if level in (7, 18) else []))
+        return node
     trees = [{"entries": [fl("a.sol", "c5"), dr("sub", [fl("b.sol", "c6"), fl("c.sol", "c5")])]},
              {"entries": [dr("one", [fl("Alpha.sol", "c5")]), dr("two", [fl("Beta.sol", "c6")])]},
              {"entries": [fl("x.sol", "c6"), fl("y.sol", "c5"), dr("deep", [dr("er", [fl("z.sol", "c6")])])]},
@@ -827,7 +853,11 @@ def _pipeline(chk, tier, pid, beh):
              # function of the file, run after run
              {"entries": [fl("Same.sol", "c8"), dr("lib", [fl("Names.sol", "c8"), fl("b.sol", "c5")])]},
              # a file with 160 findings of one pattern in each category (c9)
-             {"entries": [fl("Many.sol", "c9"), dr("more", [fl("Many2.sol", "c9"), fl("b.sol", "c6")])]}] + trees
+             {"entries": [fl("Many.sol", "c9"), dr("more", [fl("Many2.sol", "c9"), fl("b.sol", "c6")])]},
+             # deeply nested expressions between ordinary findings (c10), listed before and after other files
+             {"entries": [fl("A.sol", "c1"), fl("Deep.sol", "c10"), dr("sub", [fl("Deep2.sol", "c10"), fl("Z.sol", "c2")]), fl("Z.sol", "c5")]},
+             # an eligible file thirty directories down, others on the way
+             {"entries": [fl("Top.sol", "c1"), deep_chain(30)]}] + trees
     recs = pipeline.run_trees(chk, hb, sb, trees, cat, d)
     if not recs:
         raise ToolError("no pipeline runs")
@@ -988,6 +1018,76 @@ def _c14_execute(hb, sb, inputs):
     return recs
 
 
+def _named_runs(chk, hb, sb, d, cat):
+    """A documented name selects THE pattern the documentation describes under that name: the binary is run once per
+    documented name with a configuration naming only it, over a directory of hand-written files; the lines listed under
+    the name's section for each file must lie between MustLines and MayLines (Patterns.tla) of that pattern on the
+    projected tree of the file (TV_Patterns) -- not merely be whatever the code computes for the name."""
+    scratch = vlib.scratch_dir("C14n")
+    try:
+        src = os.path.join(scratch, "src")
+        os.makedirs(src)
+        for f in sorted(os.listdir(bindrive.WITNESS)):
+            shutil.copy(os.path.join(bindrive.WITNESS, f), os.path.join(src, "W_" + f))
+        for f in ("syntax_rich.sol", "type_shapes.sol", "try_shapes.sol", "strings_new.sol", "strings_old.sol", "range_pragma.sol",
+                  "unnamed_fns.sol", "multibyte_items.sol"):
+            if os.path.exists(os.path.join(ROOT, "corpus", f)):
+                shutil.copy(os.path.join(ROOT, "corpus", f), os.path.join(src, "H_" + f))
+        tpath = os.path.join(d, "trace-named.ndjson")
+        xpath = os.path.join(d, "texts-named.ndjson")
+        chk.add_harness(vlib.harness(hb, ["detect-record", src, "-", tpath, xpath]), count_traces=False)
+        recs = vlib.read_ndjson(tpath)
+        texts = vlib.read_ndjson(xpath)
+        reports = os.path.join(scratch, "reports")
+        os.makedirs(reports)
+        names = [(c, n) for c in bindrive.CATS for n in cat[c]]
+        for i, (c, n) in enumerate(names):
+            cwd = os.path.join(scratch, "cwd%02d" % i)
+            os.makedirs(cwd)
+            with open(os.path.join(cwd, "one.toml"), "w") as f:
+                f.write('path = "unused"\n')
+                for cc in bindrive.CATS:
+                    # every second name in upper case: casing does not matter
+                    f.write("%s = [%s]\n" % (cc, json.dumps(n.upper() if i % 2 else n) if cc == c else ""))
+            code, err = bindrive.run_solstat(sb, cwd, bindrive.spell_args(src, "one.toml", [c, n]))
+            rp = os.path.join(cwd, "solstat_report.md")
+            if code != 0 or not os.path.exists(rp):
+                chk.violate("named-run-failed:%s" % n, "solstat with only %s selected: exit %s, report %s" % (
+                    n, code, "present" if os.path.exists(rp) else "missing"), {"pattern": n, "stderr": err[-200:]})
+                continue
+            shutil.copy(rp, os.path.join(reports, "n%02d.md" % i))
+        parsed = bindrive.parse_reports(hb, reports)
+        listed = {}    # pattern -> file -> lines
+        for i, (c, n) in enumerate(names):
+            pr = parsed.get("n%02d.md" % i)
+            if pr is None:
+                continue
+            listed[n] = {}
+            cur = None
+            for cc in bindrive.CATS:
+                for it in pr.get("parts", {}).get(cc, []):
+                    if it["t"] == "Section":
+                        cur = it["p"]
+                    elif it["t"] == "Entry" and cur is not None:
+                        # an entry under ANOTHER pattern's section than the one named is attributed to the named one:
+                        # it is what the name selected
+                        listed[n].setdefault(it["f"], []).append(it["l"])
+        for r in recs:
+            r["results"] = {n: sorted(set(listed[n].get(r["src"], []))) for n in listed if n in r["results"]}
+            r["entry"] = "binary:one-name-per-run"
+        vlib.write_ndjson(tpath, recs)
+        chk.evaluations += len(recs) * len(names)
+
+        def describe(rec, why):
+            det, verdict = why.split(":")
+            return ("named-pattern:%s:%s" % (det, verdict),
+                    "with only the name %s configured, the report lists lines %s for %s: not what the pattern documented under that name flags" % (
+                        det, rec["results"].get(det), rec["src"]), {"detector": det})
+        trace_validate(chk, "TV_Patterns", tpath, describe, env={"MODE": "ALL"}, timeout=1800)
+    finally:
+        shutil.rmtree(scratch, ignore_errors=True)
+
+
 @prop("C14")
 def check_c14(chk, tier):
     hb = vlib.build_harness("dev")
@@ -1055,6 +1155,7 @@ def check_c14(chk, tier):
                     " ".join(rec["args"]), json.dumps(inp)[:300], rec["rep0"], rec["obs"]["exit"], rec["obs"]["changed"],
                     json.dumps(rec["obs"]["report"])[:300]))
     trace_validate(chk, "TV_Solstat", spath, describe_sys, env={"WORLD": wpath}, timeout=1800)
+    _named_runs(chk, hb, sb, d, cat)
     chk.exhaustive = True
     chk.rule = ("The catalogue of documented names is extracted from docs/identified-*.md and Solstat.toml in /repo at check "
                 "time. TLC runs the option-resolution machine over every input of the family (--path present/absent x --toml "
